@@ -392,6 +392,18 @@ func (x *Exec) evalIdent(env *SpecEnv, name string) SVal {
 	}
 	// locals of the enclosing function (loop invariants, asserts)
 	if env.fr != nil {
+		// inside old(...) a parameter stands for the argument the function was called with, also when the
+		// parameter escapes (is captured by a closure) and therefore lives in a heap box that the entry state
+		// has not initialised yet
+		if env.st == env.fr.entrySt {
+			for _, p := range env.fr.fn.Params {
+				if p.Name() == name {
+					if pv, has := env.fr.vals[p]; has {
+						return SVal{pv, goT(p.Type())}
+					}
+				}
+			}
+		}
 		if a := x.findLocal(env.fr, env.li, name); a != nil {
 			elem := a.Type().(*types.Pointer).Elem()
 			if a.Heap {
